@@ -296,7 +296,9 @@ class PageTemplate(BaseTemplate):
             escape=True if self.mode == "xml" else False,
             default_marker=self.default_marker,
             boolean_attributes=boolean_attributes or frozenset([]),
-            implicit_i18n_translate=self.implicit_i18n_translate,
+            # (a text template has no elements: its text is not a message)
+            implicit_i18n_translate=(
+                self.implicit_i18n_translate and self.mode != "text"),
             implicit_i18n_attributes=self.implicit_i18n_attributes,
             trim_attribute_space=self.trim_attribute_space,
             enable_data_attributes=self.enable_data_attributes,
